@@ -312,6 +312,9 @@ structure State where
   dispatched : List (Key × FK × List Nat)
   /-- every frame of the peer the inbound loop has started on -/
   rxDone : List WFrame
+  /-- scheduler only (never read by `step?`): the streams in the order in which a frame last woke their idle task;
+  tokio runs woken tasks in wake order, which decides who reaches `StreamQueue::push` first -/
+  runq : List Key
 
 def Key.valid (s : State) (k : Key) : Bool :=
   if k.conn then decide (k.id < s.nCon) else decide (k.id < s.nAcc)
@@ -327,7 +330,7 @@ def State.start (cfg : Cfg) (acc con pacc pcon : Caps) : State :=
     rx := [], rxEof := false, cur := .idle, pulled := 0, dead := none,
     out := [], flushed := 0, flushReq := false,
     qPushed := fun _ _ => [], qWait := fun _ _ => [], slots := fun _ => .free, slotList := [],
-    doneLog := [], dispatched := [], rxDone := [] }
+    doneLog := [], dispatched := [], rxDone := [], runq := [] }
 
 /-- `Mux::run` up to the end of the handshake exchange. -/
 def State.init (cfg : Cfg) (acc con pacc pcon : Caps) : State :=
@@ -361,7 +364,8 @@ def State.log (s : State) (d : Done) : State := { s with doneLog := s.doneLog ++
 /-- `stream.send(Frame {..})` in the inbound loop -/
 def State.enqueue (s : State) (k : Key) (f : RFrame) : State :=
   { s.upd k (fun t => { t with queue := t.queue ++ [f] }) with
-    dispatched := s.dispatched ++ [(k, f.kind, f.data)] }
+    dispatched := s.dispatched ++ [(k, f.kind, f.data)],
+    runq := if (s.st k).queue.isEmpty then s.runq.erase k ++ [k] else s.runq }
 
 inductive Event where
   -- transport / peer
@@ -654,19 +658,24 @@ def queueEvents (s : State) : List Event :=
   (s.rngAcc.map (fun r => Event.pop false r.cap)) ++ (s.rngCon.map (fun r => Event.pop true r.cap))
 
 /-- internal events in scheduler priority order: the inbound loop runs until it blocks (as the real task does:
-none of its awaits yields while input and permits are available), then the stream tasks, the queues, the flush. -/
-def candidates (s : State) : List Event :=
-  [.pump] ++ (keysOf s).flatMap keyEvents ++ queueEvents s ++ [.doFlush]
+none of its awaits yields while input and permits are available), then the stream tasks, the queues, the flush.
+Stream tasks are tried in the order `prio` (scheduling advice supplied with the operation: which streams the real
+runtime let through `StreamQueue::push` first), then in wake order (`runq`), then by id. The order only selects one of
+the interleavings the LTS allows. -/
+def candidates (prio : List Key) (s : State) : List Event :=
+  let ks := prio ++ s.runq.filter (fun k => !prio.contains k) ++
+    (keysOf s).filter (fun k => !prio.contains k && !s.runq.contains k)
+  [.pump] ++ ks.flatMap keyEvents ++ queueEvents s ++ [.doFlush]
 
-def pick (s : State) : Option (Event × State) :=
-  (candidates s).findSome? (fun e => (step? s e).map (fun s' => (e, s')))
+def pick (prio : List Key) (s : State) : Option (Event × State) :=
+  (candidates prio s).findSome? (fun e => (step? s e).map (fun s' => (e, s')))
 
 /-- run internal events until none is enabled (or the fuel runs out: `false`) -/
-def settle : Nat → State → State × Bool
+def settle (prio : List Key) : Nat → State → State × Bool
   | 0, s => (s, false)
   | fuel + 1, s =>
-    match pick s with
+    match pick prio s with
     | none => (s, true)
-    | some (_, s') => settle fuel s'
+    | some (_, s') => settle prio fuel s'
 
 end EraVerif.Model.Mux
